@@ -26,9 +26,12 @@ def build_cases(tier, seed=SEED):
     add('c17_2d_single', [(0, 2, 3, 'irregular', ''), (1, 1, 3, 'irregular', 'single')], zeros=(1, 2, 3))
     add('c17_2d_onenz', [(1, 0, 3, 'uniform', ''), (1, 0, 3, 'uniform', '')], zeros=(0, 1, 3))
     add('c17_3d', [(1, 0, 2, 'irregular', ''), (0, 1, 3, 'uniform', 'outside'), (2, 0, 2, 'irregular', '')], zeros=(0, 7))
+    add('c17_3d_b', [(2, 1, 4, 'irregular', 'outside'), (1, 1, 3, 'irregular', 'repeat'), (3, 0, 3, 'uniform', '')], zeros=(2, 3, 11))
+    add('c17_4d', [(1, 0, 2, 'uniform', ''), (0, 1, 2, 'irregular', ''), (1, 0, 2, 'irregular', 'single'), (1, 1, 3, 'uniform', '')], zeros=(0, 1))
     if tier != 'quick':
-        add('c17_3d_b', [(2, 1, 4, 'irregular', 'outside'), (1, 1, 3, 'irregular', 'repeat'), (3, 0, 3, 'uniform', '')], zeros=(2, 3, 11))
-        add('c17_4d', [(1, 0, 2, 'uniform', ''), (0, 1, 2, 'irregular', ''), (1, 0, 2, 'irregular', 'single'), (1, 1, 3, 'uniform', '')], zeros=(0, 1))
+        add('c17_1d_o4', [(4, 2, 5, 'irregular', 'outside')]); add('c17_1d_o5', [(5, 1, 4, 'irregular', 'repeat')], zeros=(1,))
+        add('c17_4d_b', [(2, 0, 3, 'irregular', 'repeat'), (1, 1, 2, 'irregular', 'outside'), (0, 2, 3, 'uniform', 'onknot'), (3, 0, 2, 'irregular', '')], zeros=(0, 5, 17))
+        add('c17_3d_c', [(3, 1, 3, 'irregular', 'onknot'), (2, 2, 4, 'irregular', 'outside'), (2, 0, 1, 'uniform', 'single')], zeros=(4,))
     return cases
 
 def run_check(tier):
@@ -37,7 +40,7 @@ def run_check(tier):
     cases = build_cases(tier); budget = 30 if tier == 'quick' else 180
     res, fails = fitkit.evaluate(out, 'C17', cases, budget)
     c09.triage(out, 'C17', cases, fails)
-    out.cov['bounds'] = dict(ndim='1..3 (quick) / ..4', orders='0..3 mixed', grids='<= 6 abscissae per axis: unsorted, repeated, outside the knot range, single-point axes, exactly on interior knots', symbolic='every coefficient (a non-zero variable or exactly 0; zero patterns: none, edge, single non-zero)')
+    out.cov['bounds'] = dict(ndim='1..4', orders='0..3 mixed (quick) / 0..5', grids='<= 6 abscissae per axis: unsorted, repeated, outside the knot range, single-point axes, exactly on interior knots', symbolic='every coefficient (a non-zero variable or exactly 0; zero patterns: none, edge, single non-zero)')
     out.cov['translator_validation'] = dict(compared=compared, mismatches=mism, status=vstat)
     out.cov['checker_cmd'] = 'z3 -t:%d000 (QF_NRA)' % budget
     out.cov['trusted_base'] = ['clang-14 IR', 'ir2c.py', 'rt_sym.cpp', 'models/cholmod_model.c', 'harness oracle', 'z3']
